@@ -359,7 +359,7 @@ def oracle_distribute(ctx, nw, ws, G, desc):
     if D.shape != R.shape or not np.array_equal(D, R):
         ctx.fail("distribute:not-gate-on-its-wires-times-identity", desc,
                  "G on wires %s (first = most significant) (x) 1" % list(ws), "differs")
-    coords = [(r, c) for r, c, _ in raw]
+    coords = [(r, c) for r, c, _ in (raw or [])]      # raw is None when the result was not built from triples
     if len(set(coords)) != len(coords):
         ctx.fail("distribute:duplicate-coordinates", desc, "distinct (row, col)", "duplicates")
     return raw, D
@@ -760,6 +760,11 @@ def run(ctx):
     for m, nw in ((4, 4), (4, 6), (5, 7), (4, 8)):
         sels.append((nw, list(range(nw - 1, nw - 1 - m, -1))))
         sels.append((nw, sorted(rng.sample(range(nw), m), reverse=True)))
+    # every ordering of a contiguous block of four wires (incl. the ones that start at the lowest and end at the highest
+    # wire with the interior permuted: a "contiguous block = plain Kronecker product" shortcut is wrong there)
+    for off, nw in ((1, 6), (0, 4)) + (((2, 7), (0, 5)) if ctx.thorough else ()):
+        for ws in itertools.permutations(range(off, off + 4)):
+            sels.append((nw, list(ws)))
     ctx.exhaustive = {"ordered wire selections m<=%d of nw<=6" % max_m: n_sel_exh}
     seen_csr = 0
     for nw, ws in sels:
